@@ -71,6 +71,13 @@ def gen_arcs(rng, n, simple):
             continue
         cost = rng.choice([0, 1, 1]) if ties else rng.randrange(-3 if neg else 0, 7)
         arcs.append([u, v, rng.choice([0, 1, 1, 2, 3, 4]), cost])
+    if arcs and rng.random() < 0.06:
+        # every cost is huge and the differences are small: integer costs have no magnitude limit, so potentials and
+        # reduced costs must be exact integers, not doubles
+        base = rng.choice([2 ** 54, 10 ** 15, 10 ** 17, 10 ** 30])
+        for a in arcs:
+            a[3] = base + rng.randrange(0, 10)
+        return arcs
     if arcs and rng.random() < 0.15:
         # one very expensive "penalty" arc (still an integer cost) next to ordinary costs of either sign:
         # tolerances must not scale with the largest cost
@@ -196,7 +203,10 @@ def generate(rng, tier):
             d = rng.randrange(0, 4)
             sup[a] += d
             sup[b] -= d
-        return {"kind": "ns", "n": n, "arcs": arcs, "supplies": sup}
+        case = {"kind": "ns", "n": n, "arcs": arcs, "supplies": sup}
+        if rng.random() < 0.15:
+            case["ns_max_iter"] = rng.choice([1, 1, 2, 3, 5])  # an iteration budget that may run out before optimality is proven
+        return case
     used = sorted({a[0] for a in arcs} | {a[1] for a in arcs})
     s, t = rng.sample(used, 2)
     return {"kind": "st", "n": n, "arcs": arcs, "s": s, "t": t, "demand": rng.choice([0, 1, 1, 2, 3, 5, 8]),
@@ -282,7 +292,8 @@ def judge_ns(case, o, n, arcs, supplies, opt):
     key = dict(target="network_simplex", **features(arcs))
     try:
         with budget.steps(STEP_LIMIT):
-            res = m.network_simplex(n, [tuple(a) for a in arcs], list(supplies))
+            kw = {"max_iter": case["ns_max_iter"]} if case.get("ns_max_iter") and case["kind"] == "ns" else {}
+            res = m.network_simplex(n, [tuple(a) for a in arcs], list(supplies), **kw)
     except budget.StepBudgetExceeded:
         o.violate(PROP, "no_return", f"network_simplex did not return within {STEP_LIMIT} events", **key)
         return None
@@ -290,6 +301,11 @@ def judge_ns(case, o, n, arcs, supplies, opt):
         o.violate(PROP, f"exception:{type(e).__name__}", f"network_simplex raised {type(e).__name__}: {e}", **key)
         return None
     st = res.status.name
+    if st == "MAX_ITER" and kw:
+        o.fault("budget_cut")
+        if res.iterations < kw["max_iter"]:
+            o.violate(PROP, "early_max_iter", f"network_simplex: MAX_ITER after {res.iterations} iterations with max_iter={kw['max_iter']}", **key)
+        return res  # out of budget: no claim about feasibility or optimality is made
     if opt is None:
         if st != "INFEASIBLE":
             o.violate(PROP, "feasible_for_infeasible", f"network_simplex: status {st}, objective {res.objective} but no feasible flow exists", **key)
